@@ -127,7 +127,8 @@ func runC11(t *testing.T, c *c11Case, known func(string) bool) (out c11Outcome) 
 				}
 				sc := conn.(*mailbox.ServerConn)
 				prev = sc.Done()
-				logf("%v accept returned", time.Since(start))
+				logf("%v accept returned %p", time.Since(start), sc)
+				go func() { <-sc.Done(); logf("%v server conn %p Done closed", time.Since(start), sc) }()
 				acceptCh <- accepted{lc: &liveConn{raw: conn, done: sc.Done()}}
 			}
 		}()
